@@ -321,7 +321,6 @@ func bufferFailedWriteLeavesState(c *core.Ctx, rule string) {
 		c.Fail(rule, "anchor/Buffer.Write", 0, "Buffer.Write not found")
 		return
 	}
-	c.Analysed(facts.FuncName(wr))
 	isFieldStore := func(in ssa.Instruction) bool {
 		st, ok := in.(*ssa.Store)
 		if !ok {
@@ -330,26 +329,61 @@ func bufferFailedWriteLeavesState(c *core.Ctx, rule string) {
 		base, _, isF := facts.FieldOf(st.Addr)
 		return isF && structName(base.Type()) == "Buffer"
 	}
-	n := 0
-	for _, r := range returnsOf(wr) {
-		if len(r.Results) != 2 || facts.RetErrIsNil(r) {
-			continue
-		}
-		n++
-		// is there a path entry -> (field store) -> this return?
-		dirty := false
-		for _, b := range wr.Blocks {
-			for _, in := range b.Instrs {
-				if !isFieldStore(in) {
-					continue
-				}
-				isRet := func(x ssa.Instruction) bool { return x == ssa.Instruction(r) }
-				if _, reach := facts.ReachesWithout(in, isRet, nil, nil); reach {
-					dirty = true
-				}
+	// Write, and the private Buffer helpers it calls that can refuse (each judged on its own:
+	// a helper's refusal is forwarded by its caller)
+	fns := []*ssa.Function{wr}
+	for h := range reachHelpers(wr, 2) {
+		if h != wr && h.Signature.Recv() != nil && structName(h.Signature.Recv().Type()) == "Buffer" {
+			if res := h.Signature.Results(); res.Len() > 0 && res.At(res.Len()-1).Type().String() == "error" {
+				fns = append(fns, h)
 			}
 		}
-		c.Check(!dirty, rule, "Buffer.Write/refusal-leaves-state", r.Pos(), "no Buffer field is assigned on a path to this refusal", "Buffer.Write assigns a field of the upload (buffer contents, start-offset check, committed flag) on a path that then refuses the write: a refused write alters the upload (e.g. it disarms the resume-offset check, so the next write at the wrong offset is appended)")
+	}
+	storesFields := func(h *ssa.Function) bool {
+		return helperTouches(h, 2, isFieldStore)
+	}
+	n := 0
+	for _, fn := range fns {
+		c.Analysed(facts.FuncName(fn))
+		for _, r := range returnsOf(fn) {
+			if len(r.Results) == 0 || facts.RetErrIsNil(r) {
+				continue
+			}
+			n++
+			ev := facts.RetVal(r, len(r.Results)-1)
+			dirty := false
+			for _, b := range fn.Blocks {
+				for _, in := range b.Instrs {
+					isDirty := isFieldStore(in)
+					if call, ok := in.(*ssa.Call); ok && !isDirty {
+						if h := call.Call.StaticCallee(); h != nil && h.Pkg == fn.Pkg && h.Blocks != nil && storesFields(h) {
+							// a helper that assigns fields: harmless for this refusal only if the
+							// refusal IS that helper's own error (judged in the helper)
+							fwd := false
+							switch e := ev.(type) {
+							case *ssa.Call:
+								fwd = e == call
+							case *ssa.Extract:
+								fwd = e.Tuple == ssa.Value(call)
+							}
+							isDirty = !fwd
+						}
+					}
+					if !isDirty {
+						continue
+					}
+					isRet := func(x ssa.Instruction) bool { return x == ssa.Instruction(r) }
+					if _, reach := facts.ReachesWithout(in, isRet, nil, nil); reach {
+						dirty = true
+					}
+				}
+			}
+			key := "Buffer.Write/refusal-leaves-state"
+			if fn != wr {
+				key += "/in " + fnName(fn)
+			}
+			c.Check(!dirty, rule, key, r.Pos(), "no Buffer field is assigned on a path to this refusal", "Buffer.Write assigns a field of the upload (buffer contents, start-offset check, committed flag) on a path that then refuses the write: a refused write alters the upload (e.g. it disarms the resume-offset check, so the next write at the wrong offset is appended)")
+		}
 	}
 	if n == 0 {
 		c.Fail(rule, "Buffer.Write/refusal-leaves-state", wr.Pos(), "Buffer.Write has no refusing return")
